@@ -71,8 +71,16 @@ func GenCfg(rng *rand.Rand) Cfg {
 	if c.Metric == 3 && c.Dim == 1 {
 		c.Dim = 2
 	}
+	// About one configuration in sixteen is wide (up to 2500 components: embedding-sized vectors, block boundaries
+	// of any buffered vector codec, every unrolled loop of the kernels). Chosen from the draws above, without a draw
+	// of its own, so that all other cases stay what they were.
+	if (c.M*31+c.Ef*7+c.EfC*3+c.MaxLevel)%16 == 0 {
+		c.Dim = WideDims[(c.Ef*5+c.M+c.EfC)%len(WideDims)]
+	}
 	return c
 }
+
+var WideDims = []int{17, 24, 31, 32, 33, 64, 100, 128, 255, 256, 257, 1023, 1024, 1025, 1536, 2500}
 
 // Id derives a well-mixed deterministic id from a small integer.
 func Id(n int) uuid.UUID {
